@@ -504,22 +504,79 @@ func runConformanceStructure(rr *RuleRun) {
 		}
 		key := "cty.testConformance/" + kx
 		found := false
-		ast.Inspect(ifs.Body, func(n ast.Node) bool {
-			call, ok := n.(*ast.CallExpr)
-			if !ok || callee(info, call) != self || len(call.Args) < 2 {
+		var scan func(body ast.Node, binfo *types.Info, gs, ws map[types.Object]bool, g, w types.Object, depth int)
+		scan = func(body ast.Node, binfo *types.Info, gs, ws map[types.Object]bool, g, w types.Object, depth int) {
+			ast.Inspect(body, func(n ast.Node) bool {
+				call, ok := n.(*ast.CallExpr)
+				if !ok || len(call.Args) < 2 {
+					return true
+				}
+				f := callee(binfo, call)
+				if f == nil {
+					return true
+				}
+				if f == self {
+					found = true
+					a0, a1 := base(call.Args[0]), base(call.Args[1])
+					g0 := mentions(binfo, a0, gs) && !mentions(binfo, a0, map[types.Object]bool{w: true})
+					w1 := mentions(binfo, a1, ws) && !mentions(binfo, a1, map[types.Object]bool{g: true})
+					if g0 && w1 {
+						rr.OK(key, call.Pos(), "recurses on (member of given, member of want)")
+					} else {
+						rr.Violation(key, call.Pos(), fmt.Sprintf("recursive conformance call compares %s with %s: not (member of given, member of want)", exprStr(call.Args[0]), exprStr(call.Args[1])))
+					}
+					return true
+				}
+				// a same-package helper that receives the two sides in separate parameters
+				if depth > 0 && f.Pkg() != nil && shortPkg(f.Pkg()) == "cty" {
+					cd := findFuncDecl(f)
+					if cd == nil || cd.Body == nil {
+						return true
+					}
+					var gp, wp types.Object
+					for i, a := range call.Args {
+						id := paramIdent(cd, i)
+						if id == nil {
+							continue
+						}
+						po := binfo.Defs[id]
+						isG := mentions(binfo, a, gs) && !mentions(binfo, a, ws)
+						isW := mentions(binfo, a, ws) && !mentions(binfo, a, gs)
+						if isG && gp == nil {
+							gp = po
+						} else if isW && wp == nil {
+							wp = po
+						}
+					}
+					if gp != nil && wp != nil {
+						// the helper's parameters play the roles; locals derived from them are found by name flow inside it
+						hg, hw := map[types.Object]bool{gp: true}, map[types.Object]bool{wp: true}
+						for changed := true; changed; {
+							changed = false
+							ast.Inspect(cd.Body, func(m ast.Node) bool {
+								if as, ok := m.(*ast.AssignStmt); ok && len(as.Lhs) == len(as.Rhs) {
+									for i, l := range as.Lhs {
+										if lo := objOf(binfo, l); lo != nil {
+											if !hg[lo] && mentions(binfo, as.Rhs[i], hg) && !mentions(binfo, as.Rhs[i], hw) {
+												hg[lo], changed = true, true
+											}
+											if !hw[lo] && mentions(binfo, as.Rhs[i], hw) && !mentions(binfo, as.Rhs[i], hg) {
+												hw[lo], changed = true, true
+											}
+										}
+									}
+								}
+								return true
+							})
+						}
+						scan(cd.Body, binfo, hg, hw, gp, wp, depth-1)
+					}
+				}
 				return true
-			}
-			found = true
-			a0, a1 := base(call.Args[0]), base(call.Args[1])
-			g0 := mentions(info, a0, gset) && !mentions(info, a0, map[types.Object]bool{want: true})
-			w1 := mentions(info, a1, wset) && !mentions(info, a1, map[types.Object]bool{given: true})
-			if g0 && w1 {
-				rr.OK(key, call.Pos(), "recurses on (member of given, member of want)")
-			} else {
-				rr.Violation(key, call.Pos(), fmt.Sprintf("recursive conformance call compares %s with %s: not (member of given, member of want)", exprStr(call.Args[0]), exprStr(call.Args[1])))
-			}
-			return true
-		})
+			})
+		}
+		installFindFuncDecl(c)
+		scan(ifs.Body, info, gset, wset, given, want, 2)
 		if !found {
 			rr.Violation(key, ifs.Pos(), "compound branch does not recurse into member types")
 		}
